@@ -89,6 +89,29 @@ pub fn c03(tier: &str) -> i32 {
     // a failed statement or a failed batch left invisible must stay invisible when only the file is left
     let mut searches = vec![mk_search("C03", "insert/delete/ddl core on t(k UNIQUE)", Cfg::default(), prefix, alpha, if quick { 6 } else { 8 }, if quick { 100_000 } else { 3_000_000 }, |p| p.reopen_end = true)];
 
+    // the same core with the transaction ids shifted by 1..7 (read-only statements in front): what hides a rolled-back
+    // transaction after a reopen is a bitmap, so byte and bit position of its id matter
+    {
+        let prefix_c = vec![Op::Auto(Stmt::CreateTable(t_unique())), Op::Auto(ins("t", &[(1, 10)]))];
+        let alpha_c = vec![
+            Op::Begin(1),
+            Op::In(1, ins("t", &[(2, 20)])),
+            Op::In(1, del("t", 1)),
+            Op::Commit(1),
+            Op::Rollback(1),
+            Op::DropSession(1),
+            Op::Auto(ins("t", &[(3, 30), (1, 99)])),
+            Op::Batch(vec![ins("t", &[(4, 40)]), unknown_table()]),
+            Op::Auto(ins("t", &[(5, 50)])),
+        ];
+        for off in 1..8usize {
+            let mut pre = prefix_c.clone();
+            for _ in 0..off {
+                pre.push(Op::Auto(sel("t")));
+            }
+            searches.push(mk_search("C03", &format!("core with transaction ids shifted by {off}: rollback, session drop, failed statement and failed batch, then close + reopen"), Cfg::default(), pre, alpha_c.clone(), if quick { 4 } else { 6 }, if quick { 20_000 } else { 1_000_000 }, |p| p.reopen_end = true));
+        }
+    }
     // updates: table without an index (UPDATE on an indexed table is a listed finding)
     let prefix2 = vec![Op::Auto(Stmt::CreateTable(t_plain())), Op::Auto(ins("t", &[(1, 10), (2, 20)]))];
     let mut a2 = vec![];
@@ -262,6 +285,29 @@ pub fn c07(tier: &str) -> i32 {
         alpha.push(Op::Commit(1));
         alpha.push(Op::Rollback(1));
         searches.push(mk_search("C07", "m(a,b) UNIQUE(a,b)", Cfg::default(), prefix, alpha, if quick { 5 } else { 7 }, if quick { 60_000 } else { 2_000_000 }, |_| {}));
+    }
+    // E: composite key with a separate row identifier: UPDATEs of PART of the key onto a taken key must be refused
+    {
+        let def = TableDef::simple("s", &[("id", ColTy::Int), ("a", ColTy::Int), ("b", ColTy::Int)]).with_unique(&["a", "b"]);
+        let row = |id: i128, a: i128, b: i128| Stmt::Insert { table: "s".into(), rows: vec![vec![i(id), i(a), i(b)]] };
+        let upd = |col: &str, v: i128, id: i128| Stmt::Update { table: "s".into(), set: vec![(col.into(), i(v))], pred: Some(("id".into(), i(id))) };
+        let prefix = vec![Op::Auto(Stmt::CreateTable(def)), Op::Auto(row(1, 10, 9)), Op::Auto(row(2, 10, 10)), Op::Auto(row(3, 11, 9))];
+        let alpha = vec![
+            Op::Auto(upd("b", 9, 2)),
+            Op::Auto(upd("a", 11, 1)),
+            Op::Auto(upd("a", 10, 3)),
+            Op::Auto(upd("b", 10, 3)),
+            Op::Auto(Stmt::Update { table: "s".into(), set: vec![("a".into(), i(10)), ("b".into(), i(9))], pred: Some(("id".into(), i(3))) }),
+            Op::Auto(row(4, 10, 9)),
+            Op::Auto(row(4, 12, 9)),
+            Op::Auto(Stmt::Delete { table: "s".into(), pred: Some(("id".into(), i(1))) }),
+            Op::Begin(1),
+            Op::In(1, upd("b", 9, 2)),
+            Op::In(1, row(5, 11, 10)),
+            Op::Commit(1),
+            Op::Rollback(1),
+        ];
+        searches.push(mk_search("C07", "s(id, a, b) UNIQUE(a, b): UPDATEs of one or both key columns of one row onto a key another row holds (must be refused), inserts, delete", Cfg::default(), prefix, alpha, if quick { 4 } else { 6 }, if quick { 60_000 } else { 2_000_000 }, |_| {}));
     }
     // D: NOT NULL columns under UPDATE (no unique index, so UPDATE is judged): every assignment of NULL / of a value that
     // some neighbouring column of the same row already holds
@@ -721,6 +767,12 @@ fn c09_long_history(tier: &str) -> i32 {
         if let Err(e) = step {
             return bad(e);
         }
+        if t % 97 == 0 {
+            // one extra transaction now and then, so that the ids of the rolled-back sessions run through every
+            // residue (the aborted set is a bitmap: byte and bit positions matter)
+            let _ = db.exec("SELECT * FROM h WHERE k = -5");
+            txns += 1;
+        }
         if t % 150 == 149 {
             if let Err(e) = db.vacuum() {
                 return bad(format!("VACUUM after {txns} transactions failed: {e:?}"));
@@ -743,7 +795,10 @@ fn c09_long_history(tier: &str) -> i32 {
                 }
             }
         }
-        if t % 1500 == 1499 {
+        // reopen right after a VACUUM (t % 1500 == 1499) and in the middle between two VACUUMs (t % 1500 == 700), where
+        // about a hundred transactions' garbage - rolled-back inserts of every id residue - is still in the file and
+        // only the persisted aborted-transaction bitmap hides it
+        if t % 1500 == 1499 || t % 1500 == 700 {
             if let Err(e) = db.reopen(Cfg::default()) {
                 return bad(format!("reopen after {txns} transactions failed: {e}"));
             }
